@@ -514,7 +514,7 @@ func writeEvidenceFile(o *Options, prog *Program, hs []*Harness, workers []*Work
 		}
 		sort.Strings(e.Assumes)
 		for _, f := range h.failures {
-			e.Failures = append(e.Failures, fmt.Sprintf("%s/%s at %s ×%d replayed=%v known=%q", f.Kind, f.Label, f.Site, f.Count, f.Replayed, f.Known))
+			e.Failures = append(e.Failures, fmt.Sprintf("%s/%s at %s class=%q ×%d replayed=%v known=%q", f.Kind, f.Label, f.Site, f.Class, f.Count, f.Replayed, truncate(f.Known, 60)))
 		}
 		sort.Strings(e.Failures)
 		states += h.nPaths
